@@ -20,7 +20,7 @@ UNARY = (
      {"op": "sample", "n": 1}, {"op": "sample", "n": 2}, {"op": "sample", "n": 5}] +
     [{"op": "append", "item": {"a": 1, "b": 0}}, {"op": "insert", "i": 0, "item": {"a": -1, "b": 0}},
      {"op": "insert", "i": 5, "item": {"a": 0}}] +
-    [{"op": "deepcopy"}] * 3 +
+    [{"op": "deepcopy"}] * 3 + [{"op": "keys"}] * 3 + [{"op": "pluck", "k": "b"}, {"op": "pluck", "k": "x"}] +
     [{"op": "fill_all"}, {"op": "fill", "kv": [["b", 0]]}, {"op": "fill", "kv": [["x", -1]]},
      {"op": "select", "keys": ["a"]}, {"op": "select", "keys": ["a", "b"]}, {"op": "unselect", "keys": ["b"]},
      {"op": "rename", "pairs": [["x", "b"]]}, {"op": "rename", "pairs": [["aa", "a"]]}, {"op": "rename", "pairs": [["aa", "a"]]}] +
@@ -28,15 +28,46 @@ UNARY = (
     [{"op": "modify_if", "p": p, "k": "b", "g": {"f": "const", "v": 0}} for p in ({"f": "a_eq", "v": 0}, {"f": "b_notnone"})]
 )
 BINARY = ["extend", "add", "semi", "anti", "inner", "left"]
+READERS = {"keys", "pluck"}
 EDITORS = {"modify", "modify_if", "fill", "fill_all", "unselect", "select", "rename", "inner", "left"}
 
 
-def do_call(lists, e):
+def nest(d):
+    """Concretisation with containers: a non-missing value v of key b is held as {"n": [v]} (a dict holding a list)."""
+    return {k: ({"n": [v]} if k == "b" and v is not None else v) for k, v in d.items()}
+
+
+def unnest(v):
+    return v["n"][0] if isinstance(v, dict) and list(v) == ["n"] else v
+
+
+def to_abs_nested(it):
+    return to_abs({k: unnest(v) for k, v in dict(it).items()})
+
+
+def do_call(lists, e, nested=False):
     a = e["a"]
     x = lists[e["x"] - 1]
     op = a["op"]
+    if op == "poke":
+        # the user's own assignment into one dict (or into the container it holds); the list object is not used
+        item = list.__getitem__(x, a["i"])
+        v = None if a["v"] == -1 else a["v"]
+        if isinstance(item.get("b"), dict) and v is not None:
+            item["b"]["n"][0] = v
+        else:
+            item["b"] = v
+        return None
+    if nested and op == "append":
+        return x.append(nest(to_py(a["item"])))
+    if nested and op == "insert":
+        return x.insert(a["i"], nest(to_py(a["item"])))
     if op == "deepcopy":
         return x.deepcopy()
+    if op == "keys":
+        return list(x.keys())
+    if op == "pluck":
+        return x.pluck(a["k"])
     if op == "sample":
         return x.sample(a["n"])
     if op == "drop_na":
@@ -52,11 +83,12 @@ def do_call(lists, e):
 
 
 class Session:
-    def __init__(self, init_items):
+    def __init__(self, init_items, nested=False):
         import dataiter as di
         self.ids = {}
         self.keep = []
-        self.lists = [di.ListOfDicts([to_py(x) for x in init_items])]
+        self.nested = nested
+        self.lists = [di.ListOfDicts([(nest(to_py(x)) if nested else to_py(x)) for x in init_items])]
         self.note(self.lists[0])
 
     def note(self, lst):
@@ -67,19 +99,26 @@ class Session:
 
     def observe(self):
         return {"lists": [{"its": [self.ids[id(it)] for it in list.__iter__(l)], "ob": bool(l._obsolete)} for l in self.lists],
-                "items": [to_abs(it) for it in self.keep]}
+                "items": [to_abs_nested(it) for it in self.keep]}
 
     def step(self, e):
         buf = io.StringIO()
         err = ""
+        ret = []
         try:
             with contextlib.redirect_stdout(buf):
-                out = do_call(self.lists, e)
-            self.lists.append(out)
-            self.note(out)
+                out = do_call(self.lists, e, self.nested)
+            if e["a"]["op"] in READERS:
+                ret = [(-1 if unnest(v) is None else unnest(v)) if not isinstance(v, str) else v for v in out]
+            elif e["a"]["op"] == "poke":
+                pass
+            else:
+                self.lists.append(out)
+                self.note(out)
         except Exception as ex:
             err = type(ex).__name__ + ": " + str(ex)[:80]
         obs = self.observe()
+        obs["ret"] = ret
         obs["warn"] = buf.getvalue().count(WARNING)
         obs["err"] = err
         return obs
@@ -92,9 +131,10 @@ def has_key_everywhere(lst, k):
 def random_trace(rng, nsteps):
     init = [{"a": rng.choice([-1, 0, 1]), **({"b": rng.choice([-1, 0, 1])} if rng.random() < 0.8 else {})}
             for _ in range(rng.randint(0, 3))]
-    s = Session(init)
-    tr = {"init": {"items": [to_abs(x) for x in s.keep], "lists": [[s.ids[id(it)] for it in list.__iter__(s.lists[0])]]},
-          "steps": []}
+    nested = rng.random() < 0.4
+    s = Session(init, nested)
+    tr = {"init": {"items": [to_abs_nested(x) for x in s.keep], "lists": [[s.ids[id(it)] for it in list.__iter__(s.lists[0])]]},
+          "nested": nested, "steps": []}
     warned = {1: False}
     for _ in range(nsteps):
         x = rng.randint(1, len(s.lists))
@@ -114,6 +154,8 @@ def random_trace(rng, nsteps):
                 e0["obs"] = s.step(e0)
                 tr["steps"].append(e0)
             e = {"x": x, "o": o, "a": a}
+        elif rng.random() < 0.12 and len(s.lists[x - 1]):
+            e = {"x": x, "o": 0, "a": {"op": "poke", "i": rng.randrange(len(s.lists[x - 1])), "v": rng.choice([0, 1, 1, -1])}}
         else:
             e = {"x": x, "o": 0, "a": rng.choice(UNARY)}
         if len(s.keep) > 40 or len(s.lists) > 12:
@@ -125,14 +167,42 @@ def random_trace(rng, nsteps):
     return tr
 
 
+def deepcopy_trace(rng):
+    """Focused history: (derive) -> deepcopy -> assignments into dicts / containers of the copy and of the original.
+    Items are heterogeneous: some hold only scalars, later ones hold a container."""
+    init = [{"a": rng.choice([-1, 0, 1]), **({"b": rng.choice([-1, -1, 0, 1])} if rng.random() < 0.8 else {})}
+            for _ in range(rng.randint(1, 4))]
+    s = Session(init, nested=True)
+    tr = {"init": {"items": [to_abs_nested(x) for x in s.keep], "lists": [[s.ids[id(it)] for it in list.__iter__(s.lists[0])]]},
+          "nested": True, "steps": []}
+
+    def do(e):
+        e["obs"] = s.step(e)
+        tr["steps"].append(e)
+        return not e["obs"]["err"]
+    if rng.random() < 0.4:
+        do({"x": 1, "o": 0, "a": rng.choice([a for a in UNARY if a["op"] in ("sort", "reverse", "copy", "append", "filter", "select", "rename")])})
+    src = len(s.lists)
+    if not do({"x": src, "o": 0, "a": {"op": "deepcopy"}}):
+        return tr
+    cp = len(s.lists)
+    for _ in range(rng.randint(1, 3)):
+        x = rng.choice([cp, cp, src])
+        if len(s.lists[x - 1]):
+            do({"x": x, "o": 0, "a": {"op": "poke", "i": rng.randrange(len(s.lists[x - 1])), "v": rng.choice([0, 1])}})
+    if rng.random() < 0.5:
+        do({"x": cp, "o": 0, "a": rng.choice([a for a in UNARY if a["op"] in ("modify", "fill", "unselect", "fill_all")])})
+    return tr
+
+
 GEN_INIT = [{"a": 0, "b": -1}, {"a": 1, "b": 1}, {"a": 0}]      # LoDSMEvents!InitSt
 
 
-def replay_behaviour(hist):
+def replay_behaviour(hist, nested=False):
     """Replays one TLC-generated behaviour (a sequence of events from LoDSMGen) on the real class."""
-    s = Session([dict(x) for x in GEN_INIT])
-    tr = {"init": {"items": [to_abs(x) for x in s.keep], "lists": [[s.ids[id(it)] for it in list.__iter__(s.lists[0])]]},
-          "steps": []}
+    s = Session([dict(x) for x in GEN_INIT], nested)
+    tr = {"init": {"items": [to_abs_nested(x) for x in s.keep], "lists": [[s.ids[id(it)] for it in list.__iter__(s.lists[0])]]},
+          "nested": nested, "steps": []}
     for e0 in hist:
         e = {"x": e0["x"], "o": e0["o"], "a": e0["a"]}
         e["obs"] = s.step(e)
@@ -171,17 +241,21 @@ def run(ctx):
     rng = ctx.rng
     ntr = 1500 if quick else 20000
     traces = [random_trace(rng, rng.randint(2, 7)) for _ in range(ntr)]
+    traces += [deepcopy_trace(rng) for _ in range(ntr // 4)]
     # spec -> code: every behaviour of the session machine enumerated by TLC (LoDSMGen) is replayed call by call
     gcfg = "INIT Init\nNEXT Next\nINVARIANT Inv\nCONSTANTS\n  MaxLists = %d\n  MaxItems = 12\n"
     rg = ctx.model_check("LoDSMGen", cfg_text=gcfg % 3, timeout=3000)
     behaviours = [j["hist"] for j in rg.json_lines if "hist" in j]
+    ctx.extra["tlc_generated_behaviours"] = len(behaviours)
+    if quick:
+        behaviours = rng.sample(behaviours, min(len(behaviours), 9000))
     if not quick:
         rg4 = ctx.model_check("LoDSMGen", cfg_text=gcfg % 4, timeout=3400, heap="12g")
         b4 = [j["hist"] for j in rg4.json_lines if "hist" in j]
         behaviours += rng.sample(b4, min(len(b4), 20000))
     ctx.extra["tlc_generated_behaviours_replayed"] = len(behaviours)
-    for hist in behaviours:
-        traces.append(replay_behaviour(hist))
+    for n, hist in enumerate(behaviours):
+        traces.append(replay_behaviour(hist, nested=(n % 3 == 0)))
     nsteps = sum(len(t["steps"]) for t in traces)
     bad = ctx_validate_traces(ctx, traces)
     for ti, step, clause in bad:
@@ -241,8 +315,8 @@ def ctx_validate_traces(ctx, traces, chunk=4000):
 def replay(ctx, rp):
     for case in rp["cases"]:
         tr0 = case["trace"]
-        s = Session([dict(x) for x in tr0["init"]["items"]])
-        tr = {"init": tr0["init"], "steps": []}
+        s = Session([dict(x) for x in tr0["init"]["items"]], tr0.get("nested", False))
+        tr = {"init": tr0["init"], "nested": tr0.get("nested", False), "steps": []}
         for e0 in tr0["steps"]:
             e = {"x": e0["x"], "o": e0["o"], "a": e0["a"]}
             e["obs"] = s.step(e)
